@@ -17,9 +17,10 @@ The character level is the *specification* of the buffered reader proved in C18
 Mirrored branch by branch: `check_stream_properties` (direction / type permission errors, then the
 `eof_action` step when the stream is past its end), `eof_action` (error / eof_code / reset with
 `Stream::reset`), the at-end-of-stream tests of each builtin, `position_relative_to_end`,
-`set_position`. The model is the REPAIRED behaviour for the three defects found
+`set_position`. The model is the REPAIRED behaviour for the four defects found
 (notes/findings/C19-*.md): newlines consumed by character input are counted in `lines`, no U+FEFF is
-skipped by character input, and an in-memory stream's position accounts for the reader's buffer.
+skipped by character input, an in-memory stream's position accounts for the reader's buffer, and
+the end-of-file value of `get_code`/`peek_code` is -1 also when the stream is past its end.
 Abstracted: invalid UTF-8 ahead is reported as `Err.badEncoding` and a `read` that finds no end
 token as `Err.noTerm` (neither is compared with the implementation). Import-free apart from the
 C18 models.
@@ -219,17 +220,16 @@ def readCore (s : St) : St × Res :=
   let r1 := r.drop lay.length
   if r1 = [] then
     if lay = [] then ({ s with past := true }, .ok .eof)
-    else ({ s with cur := s.cur + lay.length }, .error .noTerm)
+    else ({ s with cur := s.cur + lay.length, lines := s.lines + countNl lay }, .error .noTerm)
   else
     let txt := r1.takeWhile (fun b => b != 46)
     match r1.drop txt.length with
-    | [] => ({ s with cur := s.cur + lay.length + txt.length }, .error .noTerm)
-    | _ :: after =>
-      let nl := match after with
-        | 10 :: _ => 1
-        | _ => 0
-      ({ s with cur := s.cur + lay.length + txt.length + 1 + nl,
-                lines := s.lines + countNl lay + countNl txt + nl }, .ok (.term txt))
+    | 46 :: after =>
+      let nl := if after.head? = some 10 then 1 else 0
+      ({ s with cur := s.cur + (lay.length + txt.length + 1 + nl),
+                lines := s.lines + (countNl lay + countNl txt + nl) }, .ok (.term txt))
+    | _ => ({ s with cur := s.cur + (lay.length + txt.length),
+                     lines := s.lines + (countNl lay + countNl txt) }, .error .noTerm)
 
 def readOp (s : St) : St × Res :=
   match check s .text true with
